@@ -227,7 +227,10 @@ def make_scripted_class():
                 self.submitted.append((t, {k: list(v) for k, v in plain.items()}))
                 return buf
             if self.typed and plain:
-                sch = gen.typed_schedule(plain, random.Random(f"{self.sd['seed']}:{t}:types"), np)
+                # (rows that are pandas Series only where the simulator does not keep the schedules for a JSON dump: the library's
+                # encoder writes lists and numpy arrays, not Series - a limitation of the dump, not of the run)
+                keeps = getattr(getattr(self, "sim", None), "schedule_history", None) is not None
+                sch = gen.typed_schedule(plain, random.Random(f"{self.sd['seed']}:{t}:types"), np, series=not keeps)
             self.submitted.append((t, {k: list(v) for k, v in plain.items()}))
             return sch
 
